@@ -1,4 +1,4 @@
-import PdtVerif.Lemmas.CheckpointFormats
+import PdtVerif.Lemmas.CheckpointLr
 /-!
 # C16 — a crash during an epoch update never loses the last or best checkpoint
 
@@ -6,14 +6,18 @@ Model: `Model/Checkpoint.lean` (the mutating calls of `update_for_epoch` in the 
 makes them — every `f.write` of a history line is a call of its own; `Quirks.fixed` = the tree with
 `fixes/C16-*.diff` applied, `Quirks.pinned` = the pinned tree). Spec: `Spec/Recoverable.lean` (`Rec`,
 `RecAt`, `ExactLB`, `AllLoadable`, `RecAll`, `Inj`, `SafeAt`, `SafeFmt`, `Sep`). Proofs:
-`Lemmas/Checkpoint.lean`, `Lemmas/CheckpointFormats.lean` (this file states the property theorems and
+`Lemmas/Checkpoint.lean`, `Lemmas/CheckpointFormats.lean`, `Lemmas/CheckpointLr.lean` (this file states the property theorems and
 instantiates them).
 
 `SafeAt P vals k`: the update of epoch `k+1` is checkpoint-first (does not refuse, `save_info_first`
 is `False`) — a condition on the two file-name formats and the metric history. `SafeFmt P vals`: all
 updates of the history are. `Sep P vals k`: the last and the best epoch have different file names.
 `Inj P`: the two formats are injective in the epoch (they contain `{epoch}`); it implies the others.
-`U tr e`: the state an uninterrupted run saves for epoch `e` (`tr` = any deterministic training).
+`U tr e`: the state an uninterrupted run saves for epoch `e` — model state and optimizer state, the
+optimizer's learning rate INCLUDED (`Opt.lr`): `tr.fit` = any deterministic training, `tr.red e` = the
+learning rate `update_for_epoch(e)` writes into the optimizer before it saves (`none`: no reduction);
+`U tr (e+1) = tr.step (e+1) (U tr e)`, `lrAt tr e = (U tr e).2.lr`. "Exactly the parameters saved for
+epoch e" therefore covers the hyper-parameter the controller itself rewrites (last section).
 `vals`: the metric column that decides "best" (`deciding bestIsTrain ms`).
 -/
 namespace PdtVerif.Checkpoint
@@ -28,7 +32,7 @@ theorem C16_inj_safe {P : Params} (hi : Inj P) (vals : List (Option Int)) :
 
 /-- A checkpoint-first update never refuses (no `ValueError`). -/
 theorem C16_never_refuses {P : Params} {vals : List (Option Int)} {k : Nat} (hs : SafeAt P vals k)
-    (Q : Quirks) (d : Disk) (s : Nat × Nat) : ∃ main cl, planUpdate Q P vals k d s = .ok (main, cl) :=
+    (Q : Quirks) (d : Disk) (s : St) : ∃ main cl, planUpdate Q P vals k d s = .ok (main, cl) :=
   c16_never_refuses hs Q d s
 
 /-! ## crash safety, call by call -/
@@ -44,7 +48,7 @@ theorem C16_rec_step {P : Params} (vals : List (Option Int)) (tr : Train) (d : D
     (hrec : Rec P vals tr d) (k : Nat) (hk : recorded d = some k) (hlt : k < vals.length)
     (hs : SafeAt P vals k) (hsep : Sep P vals k)
     (main : List FsOp) (cl : List Path)
-    (hplan : planUpdate Quirks.fixed P vals k d (tr (k + 1) (U tr k)) = .ok (main, cl))
+    (hplan : planUpdate Quirks.fixed P vals k d (tr.step (k + 1) (U tr k)) = .ok (main, cl))
     (cl' : List Path) (hcl : ∀ p ∈ cl', p ∈ cl) (i : Nat) :
     Rec P vals tr (exec d ((opsOf main cl').take i)) :=
   c16_rec_step vals tr d hrec k hk hlt hs hsep main cl hplan cl' hcl i
@@ -57,7 +61,7 @@ theorem C16_rec_step_torn {P : Params} (vals : List (Option Int)) (tr : Train) (
     (hrec : Rec P vals tr d) (k : Nat) (hk : recorded d = some k) (hlt : k < vals.length)
     (hs : SafeAt P vals k) (hsep : Sep P vals k)
     (main : List FsOp) (cl : List Path)
-    (hplan : planUpdate Quirks.fixed P vals k d (tr (k + 1) (U tr k)) = .ok (main, cl))
+    (hplan : planUpdate Quirks.fixed P vals k d (tr.step (k + 1) (U tr k)) = .ok (main, cl))
     (cl' : List Path) (hcl : ∀ p ∈ cl', p ∈ cl) (i : Nat)
     (hat : ∀ e, (opsOf main cl')[i]? ≠ some (.hwrite (.row e))) :
     Rec P vals tr (tornDisk tear d (opsOf main cl') i) :=
@@ -68,7 +72,7 @@ checkpoint-first update of ANY recoverable disk, call number `8 + histOps.length
 of the data row; when it stops half-way, every later controller raises while reading the history
 (`recorded = none`, so `Rec` fails) although both checkpoints are in place. -/
 theorem C16_torn_row_window {P : Params} {vals : List (Option Int)} {tr : Train} {d : Disk} {k : Nat}
-    (hrec : RecAt P vals tr d k) (s : Nat × Nat) (cl : List Path) :
+    (hrec : RecAt P vals tr d k) (s : St) (cl : List Path) :
     (opsOf (saveOps P d (k + 1) s ++ histOps Quirks.fixed d (k + 1)) cl)[8 +
         (histOps Quirks.fixed d (k + 1)).length - 1]? = some (.hwrite (.row (k + 1))) ∧
     recorded (tornDisk tear d (opsOf (saveOps P d (k + 1) s ++ histOps Quirks.fixed d (k + 1)) cl)
@@ -86,7 +90,7 @@ theorem C16_rec_full {P : Params} (vals : List (Option Int)) (tr : Train) (d : D
     (k : Nat) (hrec : RecAt P vals tr d k) (hlt : k < vals.length)
     (hs : SafeAt P vals k) (hsep : Sep P vals k)
     (main : List FsOp) (cl : List Path)
-    (hplan : planUpdate Quirks.fixed P vals k d (tr (k + 1) (U tr k)) = .ok (main, cl))
+    (hplan : planUpdate Quirks.fixed P vals k d (tr.step (k + 1) (U tr k)) = .ok (main, cl))
     (cl' : List Path) (hcl : ∀ p ∈ cl', p ∈ cl) :
     RecAt P vals tr (exec d (opsOf main cl')) (k + 1) :=
   c16_rec_full vals tr d k hrec hlt hs hsep main cl hplan cl' hcl
@@ -99,7 +103,7 @@ its names are what they were before: unless they already hold the state to be sa
 not recoverable. Any formats, any recoverable disk, any metric history. -/
 theorem C16_infofirst_window {P : Params} {vals : List (Option Int)} {tr : Train} {d : Disk} {k : Nat}
     (hrec : RecAt P vals tr d k) (hne : loadState P d (k + 1) ≠ some (U tr (k + 1)))
-    (s : Nat × Nat) (cl : List Path) :
+    (s : St) (cl : List Path) :
     ¬ Rec P vals tr (exec d ((opsOf (histOps Quirks.fixed d (k + 1) ++ saveOps P d (k + 1) s) cl).take
       (histOps Quirks.fixed d (k + 1)).length)) :=
   c16_infofirst_window hrec hne s cl
@@ -183,7 +187,8 @@ theorem C16_best_is_train {P : Params} (bestIsTrain : Bool) (ms : List (Option I
 /-! ### non-vacuity: a concrete run -/
 
 def exP : Params := ⟨true, fun e => e, fun e => e⟩
-def exTr : Train := fun e s => (3 * s.1 + e, 5 * s.2 + e)
+/-- training that leaves the learning rate alone; the plateau rule fires in the update of epoch 2 -/
+def exTr : Train := ⟨fun e s => (3 * s.1 + e, ⟨5 * s.2.t + e, s.2.lr⟩), fun e => if e = 2 then some 1 else none⟩
 def exVals : List (Option Int) := [some 500, some 400, some 450]
 
 theorem exP_inj : Inj exP := ⟨fun _ _ h => h, fun _ _ h => h⟩
@@ -207,10 +212,10 @@ example : (crashSession Quirks.fixed exP exVals exTr Disk.blank 0 10).csv = some
 /-- the hypotheses of `C16_rec_step` hold on a concrete disk: first update of an empty directory,
 killed after 7 of its mutating calls (between the two renames) -/
 example : Rec exP exVals exTr
-    (exec Disk.blank ((opsOf (saveOps exP Disk.blank 1 (1, 1) ++ histOps Quirks.fixed Disk.blank 1) []).take 7)) :=
+    (exec Disk.blank ((opsOf (saveOps exP Disk.blank 1 (1, ⟨1, 0⟩) ++ histOps Quirks.fixed Disk.blank 1) []).take 7)) :=
   C16_rec_step exVals exTr Disk.blank (Rec_blank exP exVals exTr).rec 0 rfl (by decide)
     (exP_inj.safeAt exVals 0) (exP_inj.sep exVals 0)
-    (saveOps exP Disk.blank 1 (1, 1) ++ histOps Quirks.fixed Disk.blank 1) [] rfl [] (fun _ h => h) 7
+    (saveOps exP Disk.blank 1 (1, ⟨1, 0⟩) ++ histOps Quirks.fixed Disk.blank 1) [] rfl [] (fun _ h => h) 7
 
 /-- … and in the middle of a run, on a disk with leftovers of an earlier crash (a temp file and
 the superseded checkpoint of epoch 1): `Rec` holds there (`decide`), so the theorem applies. -/
@@ -224,7 +229,7 @@ example : recOk exP exVals exTr (crashSession Quirks.fixed exP exVals exTr Disk.
   decide
 
 /-- the torn data row on a concrete disk: epoch 2's row (call 9) stops half-way -/
-example : (let d := (runLoop Quirks.fixed exP exVals exTr 1 0 (0, 0) Disk.blank).2.2
+example : (let d := (runLoop Quirks.fixed exP exVals exTr 1 0 St.init Disk.blank).2.2
     let ops := opsOf (saveOps exP d 2 (U exTr 2) ++ histOps Quirks.fixed d 2) []
     (tornDisk tear d ops 9).csv = some [.header, .row 1, .torn] ∧
       recorded (tornDisk tear d ops 9) = none ∧
@@ -245,7 +250,7 @@ last and best epoch before, it does so afterwards. -/
 theorem C16_exact_step {P : Params} (hi : Inj P) (hkeep : P.keepLB = true) (vals : List (Option Int))
     (tr : Train) (d : Disk) (k : Nat) (hex : ExactLB P vals d k) (hk : k < vals.length)
     (main : List FsOp) (cl : List Path)
-    (hplan : planUpdate Quirks.fixed P vals k d (tr (k + 1) (U tr k)) = .ok (main, cl))
+    (hplan : planUpdate Quirks.fixed P vals k d (tr.step (k + 1) (U tr k)) = .ok (main, cl))
     (cl' : List Path) (hcl : ∀ p, p ∈ cl' ↔ p ∈ cl) :
     ExactLB P vals (exec d (opsOf main cl')) (k + 1) :=
   c16_exact_step hi hkeep vals tr d k hex hk main cl hplan cl' hcl
@@ -259,7 +264,7 @@ theorem C16_exact_nocrash {P : Params} (hi : Inj P) (hkeep : P.keepLB = true) (v
       ExactLB P vals d j ∧ RecAt P vals tr d j :=
   c16_exact_nocrash hi hkeep vals tr j hj
 
-example : exactLBOk exP exVals (runLoop Quirks.fixed exP exVals exTr 3 0 (0, 0) Disk.blank).2.2 3 = true := by
+example : exactLBOk exP exVals (runLoop Quirks.fixed exP exVals exTr 3 0 St.init Disk.blank).2.2 3 = true := by
   decide
 
 /-! ## keep everything: every recorded epoch stays loadable — with or without crashes -/
@@ -269,7 +274,7 @@ recorded epoch loadable with exactly its state). -/
 theorem C16_keepall_step {P : Params} (hi : Inj P) (hkeep : P.keepLB = false) (vals : List (Option Int))
     (tr : Train) (d : Disk) (k : Nat) (h : RecAll P vals tr d k) (hlt : k < vals.length)
     (main : List FsOp) (cl : List Path)
-    (hplan : planUpdate Quirks.fixed P vals k d (tr (k + 1) (U tr k)) = .ok (main, cl)) (i : Nat) :
+    (hplan : planUpdate Quirks.fixed P vals k d (tr.step (k + 1) (U tr k)) = .ok (main, cl)) (i : Nat) :
     ∃ k', RecAll P vals tr (exec d ((opsOf main cl).take i)) k' :=
   c16_keepall_step hi hkeep vals tr d k h hlt main cl hplan i
 
@@ -285,6 +290,105 @@ def exPall : Params := ⟨false, fun e => e, fun e => e⟩
 example : Inj exPall ∧ exPall.keepLB = false := ⟨⟨fun _ _ h => h, fun _ _ h => h⟩, rfl⟩
 example : (List.range' 1 3).all (fun j => decide (loadState exPall
     (faulty Quirks.fixed exPall exVals exTr Disk.blank [(1, 7, false), (0, 2, true)]) j = some (U exTr j))) = true := by
+  decide
+
+/-! ## the optimizer's learning rate is part of what is saved
+
+`update_for_epoch(e)` rewrites the optimizer's `param_groups[*]["lr"]` when the plateau rule fires
+(`tr.red e = some l`) and only then saves. `Content.optim` carries the learning rate, `U tr e` is
+the state AFTER that write, so every theorem above already speaks about it; the statements below
+make that explicit. -/
+
+/-- **What `Rec` says about the files.** On a recoverable disk the optimizer file of the last recorded
+epoch and that of the best recorded epoch hold the uninterrupted run's optimizer state — per-parameter
+state and learning rate; when the update of that epoch reduced the learning rate to `l`, the file
+has `l` (the value written into the optimizer BEFORE the checkpoint was taken). -/
+theorem C16_saved_lr {P : Params} {vals : List (Option Int)} {tr : Train} {d : Disk} {k : Nat}
+    (h : RecAt P vals tr d k) (e : Nat) (he : e = k ∨ e = bestOf (vals.take k)) (h1 : 1 ≤ e) :
+    ∃ o, d.files.get (P.opath e) = some (.optim o) ∧ o = (U tr e).2 ∧ o.lr = lrAt tr e ∧
+      (∀ l, tr.red e = some l → o.lr = l) :=
+  c16_saved_lr h e he h1
+
+/-- When the user's training leaves the learning rate alone, the learning rate of the state saved
+for epoch `e` is the learning-rate column of the history (`lrSched`: the value of the last
+reduction up to `e`, the initial one before the first). -/
+theorem C16_lr_closed_form {tr : Train} (hf : FitKeepsLr tr) (e : Nat) :
+    lrAt tr e = lrSched tr.red e :=
+  lrAt_eq_sched hf e
+
+/-- **At every crash point** of a checkpoint-first update of a recoverable disk (hypotheses of
+`C16_rec_step`), the optimizer a new controller loads for the last recorded epoch and for the best
+one carries the learning rate the uninterrupted run had at that epoch — in particular, killed
+anywhere in the update that FOLLOWS a reduction, the restart does not fall back to the old rate. -/
+theorem C16_crash_lr {P : Params} (vals : List (Option Int)) (tr : Train) (d : Disk)
+    (hrec : Rec P vals tr d) (k : Nat) (hk : recorded d = some k) (hlt : k < vals.length)
+    (hs : SafeAt P vals k) (hsep : Sep P vals k)
+    (main : List FsOp) (cl : List Path)
+    (hplan : planUpdate Quirks.fixed P vals k d (tr.step (k + 1) (U tr k)) = .ok (main, cl))
+    (cl' : List Path) (hcl : ∀ p ∈ cl', p ∈ cl) (i : Nat) :
+    ∃ k', recorded (exec d ((opsOf main cl').take i)) = some k' ∧
+      ∀ e, (e = k' ∨ e = bestOf (vals.take k')) → 1 ≤ e →
+        ∃ o, (exec d ((opsOf main cl').take i)).files.get (P.opath e) = some (.optim o) ∧
+          o.lr = lrAt tr e ∧ o.t = (U tr e).2.t := by
+  obtain ⟨k', hk'⟩ := c16_rec_step vals tr d hrec k hk hlt hs hsep main cl hplan cl' hcl i
+  refine ⟨k', hk'.1, fun e he h1 => ?_⟩
+  obtain ⟨o, ho, hou, hlr, _⟩ := c16_saved_lr hk' e he h1
+  exact ⟨o, ho, hlr, by rw [hou]⟩
+
+/-- **Resume, in memory.** After any number of killed sessions the final session holds, right after
+`load_model_and_optimizer_for_epoch`, exactly the state the uninterrupted run had after the last
+recorded epoch `k`, and when it has run to the end exactly the uninterrupted run's final state
+(model, per-parameter optimizer state, learning rate): training continues as if nothing had
+happened. -/
+theorem C16_resume_state {P : Params} (vals : List (Option Int)) (hs : SafeFmt P vals) (tr : Train)
+    (d : Disk) (hrec : Rec P vals tr d) (sched : List (Nat × Nat × Bool)) :
+    ∃ k d', k ≤ vals.length ∧
+      startSession P (afterCrashes Quirks.fixed P vals tr d sched) = some (k, U tr k) ∧
+      runLoop Quirks.fixed P vals tr (vals.length - k) k (U tr k)
+        (afterCrashes Quirks.fixed P vals tr d sched) = (vals.length, U tr vals.length, d') ∧
+      faulty Quirks.fixed P vals tr d sched = d' ∧ RecAt P vals tr d' vals.length := by
+  obtain ⟨k, d', h1, h2, h3, h4, h5⟩ := c16_resume_memory vals hs tr _
+    (rec_afterCrashes vals hs tr d hrec sched)
+  exact ⟨k, d', h1, h2, h3, by rw [faulty_eq_runToEnd]; exact h4, h5⟩
+
+/-- `exTr` leaves the learning rate to the controller; the update of epoch 2 reduces it, epoch 3
+keeps the reduced one; killed in the update that follows the reduction (2 complete updates, 3 calls
+of epoch 3's), then restarted: the optimizer loaded for epoch 2 has the new learning rate, and the
+run ends in the uninterrupted final state. -/
+example : FitKeepsLr exTr := fun _ _ => rfl
+example : lrAt exTr 1 = 0 ∧ lrAt exTr 2 = 1 ∧ lrAt exTr 3 = 1 ∧ lrSched exTr.red 3 = 1 := by decide
+example : (let d := crashSession Quirks.fixed exP exVals exTr Disk.blank 2 3
+    startSession exP d = some (2, U exTr 2) ∧ (U exTr 2).2.lr = 1 ∧
+      d.files.get (.optim 2) = some (.optim ⟨7, 1⟩) ∧
+      loadState exP (faulty Quirks.fixed exP exVals exTr Disk.blank [(2, 3, false)]) 3 = some (U exTr 3)) := by
+  decide
+
+/-- **The order is necessary.** In a checkpoint-first update of a recoverable disk in which the
+plateau rule fires (a real change of the learning rate), writing the learning rate into the
+optimizer only AFTER checkpoint and history row (`updateLrLate`) leaves the process with the right
+state in memory and `k+1` epochs recorded — an uninterrupted run shows nothing —, but the optimizer
+saved for epoch `k+1` still has the old learning rate: the disk is not recoverable in the sense of
+`Rec`, a restart from that epoch trains on with the wrong rate. -/
+theorem C16_lr_order_necessary {P : Params} {vals : List (Option Int)} {tr : Train} {d : Disk} {k : Nat}
+    (hrec : RecAt P vals tr d k) (hlt : k < vals.length) (hs : SafeAt P vals k) (hsep : Sep P vals k)
+    {l : Nat} (hred : tr.red (k + 1) = some l) (hne : (tr.fit (k + 1) (U tr k)).2.lr ≠ l) :
+    ∃ d', updateLrLate Quirks.fixed P vals tr k (U tr k) d = .ok (d', U tr (k + 1)) ∧
+      recorded d' = some (k + 1) ∧
+      loadState P d' (k + 1) = some (tr.fit (k + 1) (U tr k)) ∧
+      ¬ Rec P vals tr d' :=
+  c16_lr_order_necessary hrec hlt hs hsep hred hne
+
+/-- … on the concrete run: epoch 1 saved as the code does, epoch 2 (the reduction) in the other
+order. In memory the state is the uninterrupted one; the optimizer file of epoch 2 has learning
+rate 0 instead of 1; a run resumed from it ends with a different final state. -/
+theorem C16_lr_order_counterexample :
+    (let d1 := (runLoop Quirks.fixed exP exVals exTr 1 0 St.init Disk.blank).2.2
+     ∃ d2, updateLrLate Quirks.fixed exP exVals exTr 1 (U exTr 1) d1 = .ok (d2, U exTr 2) ∧
+       recorded d2 = some 2 ∧ loadState exP d2 2 = some (5, ⟨7, 0⟩) ∧ U exTr 2 = (5, ⟨7, 1⟩) ∧
+       recOk exP exVals exTr d2 = false ∧
+       loadState exP (runToEnd Quirks.fixed exP exVals exTr d2) 3 = some (18, ⟨38, 0⟩) ∧
+       U exTr 3 = (18, ⟨38, 1⟩)) := by
+  refine ⟨_, rfl, ?_⟩
   decide
 
 /-! ## what is false of the code -/
@@ -333,7 +437,7 @@ theorem C16_collision_window (keep : Bool) (vals : List (Option Int)) (tr : Trai
 
 /-- its hypotheses are satisfiable: the disk after epoch 1 of a constant-format run -/
 example : recOk (constP false) [some 500, some 400] exTr
-    (runLoop Quirks.fixed (constP false) [some 500, some 400] exTr 1 0 (0, 0) Disk.blank).2.2 = true ∧
+    (runLoop Quirks.fixed (constP false) [some 500, some 400] exTr 1 0 St.init Disk.blank).2.2 = true ∧
     U exTr 2 ≠ U exTr 1 := by decide
 
 /-- A metric as a file key: injective. -/
